@@ -48,7 +48,7 @@ def shape_cases(pid, tier, sc, seed):
         hs = 20 if hash_ == "sha1" else 32
         unaligned = rng.random() < 0.5
         nlog = rng.choice([0, 0, 3, n // 2])
-        width = rng.choice([4, 4, 12, 40])
+        width = rng.choice([4, 4, 12, 40, 95])        # 95: index blocks hold two entries -> 4 and more index levels
         names = ["refs/heads/%s%05d" % ("w" * width, 3 * j + 1) for j in range(n)]
         pool = ["%02x" % (j % 251) * hs for j in range(max(1, rng.choice([1, 3, n // 3 + 1])))]
         refs = [{"n": nm, "i": 7, "v": ["v", rng.choice(pool), ""] if j % 5 else ["p", rng.choice(pool), rng.choice(pool)]} for j, nm in enumerate(names)]
@@ -60,6 +60,8 @@ def shape_cases(pid, tier, sc, seed):
         keys = sorted(keys)
         seeklogs = [{"n": nm, "i": i} for nm in (names[:nlog][:4] + names[:nlog][-3:]) for i in (0, 6, 7, 8)] + [{"n": "", "i": 7}, {"n": "zzz", "i": 7}]
         blocksize = rng.choice([128, 160, 256]) if hash_ == "sha1" and width <= 12 else rng.choice([256, 320, 512])
+        if width >= 95:
+            blocksize = 256
         cases.append({"id": "shape-%s-%d" % (pid.lower(), n), "blocksize": blocksize, "restart": rng.choice([1, 2, 16]), "unaligned": unaligned,
                       "skipindex": rng.random() < 0.3, "hash": hash_, "exact": False, "min": 7, "max": 7, "refs": refs, "logs": logs,
                       "seekrefs": keys if len(keys) <= 60 else rng.sample(keys, 60), "seeklogs": seeklogs,
